@@ -6,7 +6,7 @@ from itertools import chain
 from os import PathLike
 from re import I
 import warnings
-from typing import TextIO, Union, Callable, Iterable
+from typing import TextIO, Union, Callable, Iterable, Optional
 from pathlib import Path
 
 import pdtable  # Required to read dynamically-set pdtable.CSV_SEP
@@ -156,6 +156,13 @@ def write_csv(
             _table_to_csv(table, stream, sep, na_rep)
 
 
+def _format_element(x, format_string: Optional[str]) -> str:
+    """Text of one cell: the display format applies to values, not to the missing-value marker."""
+    if format_string and not isinstance(x, str):
+        return format_string.format(x)
+    return str(x)
+
+
 def _table_to_csv(table: Table, stream: TextIO, sep: str, na_rep: str) -> None:
     """Writes a single Table to stream as CSV.
     """
@@ -168,7 +175,7 @@ def _table_to_csv(table: Table, stream: TextIO, sep: str, na_rep: str) -> None:
     if table.metadata.transposed:
         formatted_col_vals = (
             (
-                fs.format(x) if fs else str(x)
+                _format_element(x, fs)
                 for x in _represent_col_elements(col.values, col.unit, na_rep, first_column=(i == 0))
             )
             for i, (col, fs) in enumerate(zip(table, format_strings))
@@ -187,7 +194,7 @@ def _table_to_csv(table: Table, stream: TextIO, sep: str, na_rep: str) -> None:
         # if True:
         formatted_rows = (
             sep.join(
-                fs.format(x) if fs else str(x)
+                _format_element(x, fs)
                 for x, fs in zip(_represent_row_elements(row, units, na_rep), format_strings)
             )
             for row in table.df.itertuples(index=False, name=None)
